@@ -363,6 +363,9 @@ impl Rig {
         let mut model_inputs: Vec<Input> = real_inputs.iter().filter(|i| matches!(i, Input::DropFuture(_))).cloned().collect();
         model_inputs.extend(real_inputs.iter().filter(|i| !matches!(i, Input::DropFuture(_))).cloned());
         let n = self.conns.len();
+        for c in &mut self.cands {
+            c.model.unobservable = lenient.clone();
+        }
         let mut states: Vec<St> = self.cands.iter().map(|c| St { model: c.model.clone(), bind: c.bind.clone(), cur: vec![0; n], detections: 0 }).collect();
         let mut last_err: Option<Mismatch> = None;
         for input in &model_inputs {
@@ -468,6 +471,12 @@ impl Rig {
             if seen.insert(key) {
                 det = det.max(st.detections);
                 cands.push(Cand { model: st.model, bind: st.bind });
+            }
+        }
+        // release connection handles of connections that are gone (a handle keeps the id alive)
+        for c in 0..n {
+            if cands.iter().all(|k| k.model.conns[c].state == ConnState::Gone) {
+                self.conns[c].handle.borrow_mut().take();
             }
         }
         self.zombie_detections += det;
